@@ -37,6 +37,7 @@ type CallSpec struct {
 	// what S returns
 	ErrText  string    `json:",omitempty"` // non-empty: S fails with this text
 	Plain    bool      `json:",omitempty"` // … as a plain Go error (else MessageRerror)
+	Wrap     bool      `json:",omitempty"` // … as a Go error that wraps a MessageRerror (fmt.Errorf("…: %w", ErrNotfound))
 	ErrWithN bool      `json:",omitempty"` // read/write: S returns its error together with n > 0 (io.ReaderAt allows it); the caller must still get the error
 	RQid     refwire.Q `json:",omitempty"`
 	RQids    int       `json:",omitempty"` // walk: number of qids returned
@@ -48,6 +49,7 @@ type CallSpec struct {
 type SeqCase struct {
 	MSize      uint32 // 0: default negotiation (64 KiB)
 	Rendezvous bool
+	Chunk      int `json:",omitempty"` // >0: the transport hands over at most this many bytes per Read (both directions)
 	Calls      []CallSpec
 }
 
@@ -84,6 +86,10 @@ func (r *recorder) enter(g *received) *CallSpec {
 func specErr(c *CallSpec) error {
 	if c.ErrText == "" {
 		return nil
+	}
+	if c.Wrap {
+		// a protocol error annotated by the file system: the text is the annotated one
+		return fmt.Errorf("%s: %w", c.ErrText, p9p.ErrNotfound)
 	}
 	if c.Plain {
 		return errors.New(c.ErrText)
@@ -207,6 +213,7 @@ func genCall(t *rapid.T, msize int) CallSpec {
 			c.ErrText = "e"
 		}
 		c.Plain = rapid.Bool().Draw(t, "plain")
+		c.Wrap = rapid.IntRange(0, 3).Draw(t, "wrap") == 0
 	}
 	switch c.Method {
 	case "auth", "attach":
@@ -278,6 +285,9 @@ func min(a, b int) int {
 
 func GenSeq(t *rapid.T) SeqCase {
 	c := SeqCase{Rendezvous: rapid.Bool().Draw(t, "rendezvous")}
+	if rapid.IntRange(0, 3).Draw(t, "chunked") == 0 {
+		c.Chunk = rapid.SampledFrom([]int{1, 2, 3, 5, 7}).Draw(t, "chunk")
+	}
 	c.MSize = rapid.SampledFrom([]uint32{0, 0, 128, 256, 1024, 8192, 65535}).Draw(t, "msize")
 	m := int(c.MSize)
 	if m == 0 {
@@ -405,8 +415,12 @@ func checkCall(c *CallSpec, got *received, calls int, o outcome, msize int) erro
 	// --- results delivered to the caller
 	if c.ErrText != "" {
 		re, ok := o.err.(p9p.MessageRerror)
-		if !ok || re.Ename != c.ErrText {
-			return fmt.Errorf("%s: session failed with %q, caller got %v", c.Method, c.ErrText, o.err)
+		wantText := c.ErrText
+		if c.Wrap {
+			wantText = specErr(c).Error()
+		}
+		if !ok || re.Ename != wantText {
+			return fmt.Errorf("%s: session failed with %q, caller got %v", c.Method, wantText, o.err)
 		}
 		return nil
 	}
@@ -467,7 +481,7 @@ func brief(r received) string {
 
 func RunSeq(c SeqCase) harn.Result {
 	rec := &recorder{}
-	st, err := stackutil.Connect(p9p.SSession(rec), c.MSize, memconn.Options{Rendezvous: c.Rendezvous})
+	st, err := stackutil.Connect(p9p.SSession(rec), c.MSize, memconn.Options{Rendezvous: c.Rendezvous, ReadChunk: c.Chunk})
 	if err != nil {
 		return harn.Fail("session setup (msize %d) failed: %v", c.MSize, err)
 	}
@@ -497,6 +511,9 @@ func RunSeq(c SeqCase) harn.Result {
 			return harn.Fail("call %d over msize %d: %v", i, msize, err)
 		}
 		res.Classes = append(res.Classes, "m_"+cs.Method)
+		if c.Chunk > 0 {
+			res.Classes = append(res.Classes, "transport_in_small_pieces")
+		}
 		if cs.ErrText != "" {
 			res.Classes = append(res.Classes, "session_error")
 		}
